@@ -320,7 +320,13 @@ class _P(object):
         return self.assign(ln, True)
 
     def s_PROCEDURE(self, ln):
-        return St("procedure", ln, name=self.ident("procedure name"))
+        # the name is whatever follows on the line (the tool admits [A-Za-z0-9_-]+)
+        kw = self.t[self.i - 1]
+        name = self.text[kw[2] + len(kw[1]):].strip()
+        if not name or " " in name:
+            self.err("expected procedure name")
+        self.i = len(self.t)
+        return St("procedure", ln, name=name)
 
     def s_PARAM(self, ln):
         return St("param", ln, decls=self.decls())
